@@ -14,8 +14,15 @@ F_BLOOM = "happysimulator/sketching/bloom_filter.py"
 I_ = z3.IntSort()
 
 
+REPR = z3.Function("py_repr", T.Any.sort(), z3.StringSort())     # repr(item) of an opaque item (deterministic: a function)
+ICODE = z3.Function("item_code_of_repr", z3.StringSort(), I_)    # the int standing for an item with that repr
+
+
 def _t(x):
-    """raw z3 int term of a python int / SymInt"""
+    """raw z3 int term of a python int / SymInt; an OPAQUE (Any-typed) item is identified by its repr - that is all
+    the Bloom / Count-Min / HyperLogLog hash functions read of an item"""
+    if isinstance(x, T.SymAny):
+        return ICODE(REPR(x.t))
     return num(x)
 
 
@@ -100,7 +107,7 @@ loop(F_BLOOM, "BloomFilter.merge", 1, modifies=[("BloomFilter", "_bits")], inv=[
 ])
 
 ghost(F_BLOOM, "BloomFilter.__init__", "self._total_count = 0", "self.g_items = set()")
-ghost(F_BLOOM, "BloomFilter.add", "self._total_count += count", "self.g_items.add(item)")
+ghost(F_BLOOM, "BloomFilter.add", "self._total_count += count", "self.g_items.add(_c20_item_key(item))")
 ghost(F_BLOOM, "BloomFilter.merge", "self._total_count += other._total_count", "self.g_items |= other.g_items")
 
 # ============================================================================ Count-Min: helpers
@@ -607,7 +614,11 @@ PROPERTY = {
                 "and builtin hash() is an arbitrary int (spec-local models _ModelHashlib/_ModelStruct/_model_hash)"],
     "assumptions": COMMON_ASSUMPTIONS + [
         "A-python: no monkey-patching/reflection; list, dict, range, min, max behave as documented",
-        "items are modelled as ints: only equality and the sketch's hash of an item are observed",
+        "items are modelled as ints: only equality and the sketch's hash of an item are observed; one relational task "
+        "(bloom_add_then_contains) runs add / contains on OPAQUE (Any) items identified by repr(item) (uninterpreted, "
+        "deterministic): Bloom / Count-Min / HyperLogLog read an item only through repr, so their one-sided guarantees "
+        "are guarantees PER REPR - keys equal under == with different reprs (1, 1.0, True) are different items for them "
+        "(natively: add(1); 1.0 in bf is False - triage/c20_equal_keys_different_repr.py); TopK / reservoir use ==/hash",
         "hashlib.sha256 / struct.pack / repr / builtin hash (within one process) are deterministic: "
         "BloomFilter._hash(item, i) is a fixed function of (seed, size_bits, item, i), CountMinSketch._hash(item, row) of "
         "(seed, width, item, row) [its _hash_seeds are a function of seed and row], HyperLogLog._hash(item) of (seed, item); "
@@ -637,9 +648,16 @@ PROPERTY = {
         "proved per-branch clauses of TopK.add by induction; a sum over a symbolic dict is not expressible) and "
         "`a sum of n counts each >= m is >= n*m`; cross-checked natively by bounded stand-in topk-sum-and-heavy-hitters",
         "HyperLogLog precision is one of 4..16 (constructor check) - add/ctor are verified once per precision",
-        "MerkleTree.diff: _diff_nodes is an arbitrary function here (stub without clauses); tree construction and the "
-        "recursive diff are covered by the bounded stand-in merkle-diff only; SHA-256 collision-freeness is not used "
-        "by any proved clause",
+        "Merkle trees: SHA-256 over the leaf / inner-node encodings is collision-free, in the form `the hash of a subtree "
+        "determines its key/value content` (uninterpreted CDOM / CVAL of the hash); every MerkleNode on the heap is "
+        "well-formed (mk_wf: children both present or both absent, keys of the content within the key range, content of "
+        "an inner node = union of its children's) - this is what _build_tree establishes, NOT machine-checked "
+        "(construction of a frozen dataclass is out of reach), cross-checked end-to-end by the bounded stand-in merkle-diff",
+        "_diff_nodes is verified by induction on the tree depth (recursive calls through its own contract): partial "
+        "correctness, termination (finite trees) is not proved; its accumulator starts as an empty symbolic list "
+        "(representation-only ghost statement)",
+        "`diff == [] whenever the two maps are equal` needs `equal maps build equal root hashes` (determinism of "
+        "build): bounded stand-in only; proved: equal root hashes give [], and [] implies no key differs (coverage)",
     ],
 }
 
@@ -729,11 +747,42 @@ fn(BloomFilter, "merge", args={"other": Ref(BloomFilter)},
         in_bits(s.self, n), iff(bitat(s.self, n), bitat(s.old(s.self), n) | bitat(s.old(s.other), n))))),
     ("items-are-the-union", lambda s: s_eq(items_of(s.self), s_union(items_of(s.old(s.self)), items_of(s.old(s.other))))),
     ("other-unchanged", lambda s: same(s.self, s.other) | unchanged(s, s.other)),
+    # mismatched parameters are rejected: a merge that returns normally had equal size, hash count and seed
+    ("accepted-only-with-equal-parameters", lambda s: (s.self._size_bits == s.other._size_bits)
+        & (s.self._num_hashes == s.other._num_hashes) & (s.self._seed == s.other._seed)),
     ("total", lambda s: s.self._total_count == s.old(s.self)._total_count + s.old(s.other)._total_count)],
    raises={ValueError: [
        ("only-incompatible", lambda s: (s.self._size_bits != s.other._size_bits)
            | (s.self._num_hashes != s.other._num_hashes) | (s.self._seed != s.other._seed)),
        ("frame", lambda s: unchanged(s, s.self))]})
+
+# ---- opaque items.  Everywhere else items are ints.  Here the two items are OPAQUE (Any) values that the filter reads
+# only through repr(item) (uninterpreted REPR; the hash stub is a function of (seed, size, repr, i)).  Two REAL calls:
+# add(x) then contains(y).  What the code promises is "present when the REPRS are equal" - for keys that are equal
+# under == but print differently (1 / 1.0 / True) there is NO guarantee (natively: add(1); 1.0 in bf is False;
+# triage/c20_equal_keys_different_repr.py), which the clause states by being conditional on the repr only.
+import happysimulator.sketching.bloom_filter as _bloom_mod0  # noqa: E402
+
+
+def _item_key(item):
+    return mk_num(_t(item)) if isinstance(item, T.SymAny) else item
+
+
+_bloom_mod0._c20_item_key = _item_key
+
+
+def bloom_add_then_contains(bf, x, y):
+    bf.add(x)
+    return bf.contains(y)
+
+
+fn("specs.C20", "bloom_add_then_contains", kind="function", args={"bf": Ref(BloomFilter), "x": Any, "y": Any},
+   uses=BLOOM_HELPERS,
+   ensures=[
+    ("an-item-with-the-same-repr-is-reported-present", lambda s: implies(mk_bool(REPR(s.x.t) == REPR(s.y.t)), s.result)),
+    ("recorded-under-its-repr", lambda s: contains(s.bf.g_items, mk_num(_t(s.x)))),
+    ("earlier-items-still-present", lambda s: forall(Int, lambda z: implies(
+        contains(s.old(s.bf).g_items, z), contains(s.bf.g_items, z))))])
 
 # ============================================================================ Count-Min sketch
 import happysimulator.sketching.count_min_sketch as _cms_mod  # noqa: E402
@@ -804,6 +853,8 @@ fn(CountMinSketch, "merge", args={"other": Ref(CountMinSketch)},
     ("true-counts-are-the-sum", lambda s: forall(Int, lambda x:
         tru(s.self, x) == tru(s.old(s.self), x) + tru(s.old(s.other), x))),
     ("other-unchanged", lambda s: same(s.self, s.other) | unchanged(s, s.other)),
+    ("accepted-only-with-equal-parameters", lambda s: (s.self._width == s.other._width)
+        & (s.self._depth == s.other._depth) & (s.self._seed == s.other._seed)),
     ("total", lambda s: s.self._total_count == s.old(s.self)._total_count + s.old(s.other)._total_count)],
    raises={ValueError: [
        ("only-incompatible", lambda s: (s.self._width != s.other._width) | (s.self._depth != s.other._depth)
@@ -859,6 +910,8 @@ fn(HyperLogLog, "merge", args={"other": Ref(HyperLogLog)},
         in_regs(s.self, k), reg(s.self, k) == vmax(reg(s.old(s.self), k), reg(s.old(s.other), k))))),
     ("items-are-the-union", lambda s: s_eq(items_of(s.self), s_union(items_of(s.old(s.self)), items_of(s.old(s.other))))),
     ("other-unchanged", lambda s: same(s.self, s.other) | unchanged(s, s.other)),
+    ("accepted-only-with-equal-parameters", lambda s: (s.self._precision == s.other._precision)
+        & (s.self._seed == s.other._seed)),
     ("total", lambda s: s.self._total_count == s.old(s.self)._total_count + s.old(s.other)._total_count)],
    raises={ValueError: [
        ("only-incompatible", lambda s: (s.self._precision != s.other._precision) | (s.self._seed != s.other._seed)),
@@ -1050,7 +1103,8 @@ fn(ReservoirSampler, "merge", args={"other": Ref(ReservoirSampler)}, uses=RNG,
     ("counts-add-up", lambda s: s.self._total_count == s.old(s.self)._total_count + s.old(s.other)._total_count),
     ("stream-is-the-union", lambda s: forall(Int, lambda x: iff(
         seen(s.self, x), seen(s.old(s.self), x) | seen(s.old(s.other), x)))),
-    ("other-unchanged", lambda s: same(s.self, s.other) | unchanged(s, s.other))],
+    ("other-unchanged", lambda s: same(s.self, s.other) | unchanged(s, s.other)),
+    ("accepted-only-with-equal-capacity", lambda s: s.self._size == s.other._size)],
    raises={ValueError: [("only-capacity-mismatch", lambda s: s.self._size != s.other._size),
                         ("frame", lambda s: unchanged(s, s.self))]})
 
@@ -1280,7 +1334,8 @@ def _same_opt(a, b):
 
 
 # ============================================================================ Merkle tree (the parts within reach)
-# _build_tree / _diff_nodes / build / update / remove: bounded native stand-in `merkle-diff` below.
+# diff / _diff_nodes (recursive, by induction on the depth) under contract; _build_tree / build / update / remove:
+# bounded native stand-in `merkle-diff` below.
 KR = valueclass("KeyRange", [KeyRange], [("start", Str), ("end", Str)])
 fn(KeyRange, "contains", self_ty=KR, args={"key": Str}, inv=False, ensures=[
     ("inclusive-range", lambda s: iff(s.result, (s.self.start <= s.key) & (s.key <= s.self.end)))])
@@ -1408,8 +1463,85 @@ def _mk_diff_post(s):
     return (len(r) == 0) & (a.hash == b.hash)                        # equal root hash: empty diff
 
 
+# ---- tree construction (recursive, through its own contract): establishes mk_wf for every node it allocates
+ITEMS = Seq(Tuple(Str, Any))
+_ITEM = Tuple(Str, Any)
+HL = z3.Function("mk_hash_leaf", S_, ANY_, S_)
+HC = z3.Function("mk_hash_children", S_, S_, S_)
+# collision-freeness of the two hash encodings, in the form the proof uses: the hash determines the content
+stub_of(M_MK, "_hash_leaf", returns=Str, modifies=[], ensures=[
+    lambda s: mk_bool(s.result.t == HL(s.key.t, Any.unwrap(s.value))),
+    lambda s: mk_bool(CDOM(s.result.t) == z3.Store(z3.K(S_, z3.BoolVal(False)), s.key.t, z3.BoolVal(True)))
+        & mk_bool(CVAL(s.result.t, s.key.t) == Any.unwrap(s.value))])
+stub_of(M_MK, "_hash_children", returns=Str, modifies=[], ensures=[
+    lambda s: mk_bool(s.result.t == HC(Str.unwrap(s.left_hash), Str.unwrap(s.right_hash))),
+    lambda s: mk_union_of(s.result.t, Str.unwrap(s.left_hash), Str.unwrap(s.right_hash))])
+
+
+def item_key(items, i):
+    return _ITEM.acc(0)(seq_term(items)[_t(i)])
+
+
+def item_val(items, i):
+    return _ITEM.acc(1)(seq_term(items)[_t(i)])
+
+
+def items_sorted(items):
+    return forall(Int, lambda i: forall(Int, lambda j: implies(
+        (0 <= i) & (i < j) & (j < slen(items)), mk_bool(item_key(items, i) < item_key(items, j))), "ij"), "ii")
+
+
+def _bt_holds_items(s):
+    h = n_hash(s.result)
+    return forall(Int, lambda i: implies((0 <= i) & (i < slen(s.sorted_items)), mk_bool(z3.And(
+        z3.Select(CDOM(h), item_key(s.sorted_items, i)),
+        CVAL(h, item_key(s.sorted_items, i)) == item_val(s.sorted_items, i)))), "bi")
+
+
+def _bt_holds_nothing_else(s):
+    h = n_hash(s.result)
+    n = num(slen(s.sorted_items))
+    i = z3.Int("bt_w")
+    return forall(Str, lambda k: implies(mk_bool(z3.Select(CDOM(h), k.t)), mk_bool(z3.Exists(
+        [i], z3.And(0 <= i, i < n, _ITEM.acc(0)(seq_term(s.sorted_items)[i]) == k.t)))), "bk")
+
+
+# NOT REGISTERED (tried, out of reach): the contract of _build_tree drafted above needs (1) construction of a FROZEN
+# dataclass on a symbolic reference (its generated __init__ uses object.__setattr__, which bypasses the proxy:
+# OUT-OF-REACH "'ObjProxy' object has no attribute 'hash'") and (2) sortedness of the two slices at the recursive
+# call sites (string order under two nested index quantifiers over Extract terms: UNDECIDED after 530 s).
+# mk_wf of the nodes _build_tree allocates therefore stays an ASSUMPTION of _diff_nodes / diff (listed); build /
+# update / remove and the end-to-end statement on maps are covered by the bounded stand-in `merkle-diff`.
+_BUILD_TREE_DRAFT = dict(
+   uses=[(M_MK, "_build_tree"), (M_MK, "_hash_leaf"), (M_MK, "_hash_children")],
+   requires=[("at-least-one-item", lambda s: slen(s.sorted_items) >= 1),
+             ("items-strictly-sorted-by-key", lambda s: items_sorted(s.sorted_items)),
+             ("every-node-well-formed", mk_all_wf)],
+   ensures=[
+    ("every-node-well-formed", mk_all_wf),
+    ("content-holds-every-item", _bt_holds_items),
+    ("content-holds-nothing-else", _bt_holds_nothing_else),
+    ("key-range-spans-first-to-last-key", lambda s: mk_bool(z3.And(
+        n_start(s.result) == item_key(s.sorted_items, 0),
+        n_end(s.result) == item_key(s.sorted_items, slen(s.sorted_items) - 1))))])
+
+
+def _mk_diff_covers(s):
+    """every key on which the two trees' contents disagree lies in a returned range (an empty tree has no keys)"""
+    a, b = s.self._root, s.other._root
+    if a is None and b is None:
+        return True
+    if a is None or b is None:
+        h = n_hash(b if a is None else a)
+        return forall(Str, lambda k: implies(mk_bool(z3.Select(CDOM(h), k.t)), mk_covered(s.result, k)), "dk")
+    return forall(Str, lambda k: implies(mk_differs(n_hash(a), n_hash(b), k.t), mk_covered(s.result, k)), "dk")
+
+
 fn(MerkleTree, "diff", args={"other": Ref(MerkleTree)}, uses=[(M_MK, "_diff_nodes")],
+   requires=[("every-node-well-formed", mk_all_wf)],
    ensures=[("top-level-cases", _mk_diff_post),
+            # the property: otherwise its ranges cover every key whose value differs
+            ("ranges-cover-every-differing-key", _mk_diff_covers),
             ("pure", lambda s: unchanged(s, s.self) & (same(s.self, s.other) | unchanged(s, s.other)))])
 
 # ============================================================================ collectors: handle_event feeds the sketch once
@@ -1741,9 +1873,10 @@ def _td_weight_lemmas():
 lemma("tdigest-prefix-weight-facts", _td_weight_lemmas)
 
 # ============================================================================ bounded native stand-ins
-# t-digest quantile / _compress / merge (float interpolation over sorted centroids) and the Merkle tree
-# (_build_tree / _diff_nodes recursion over tree shapes) are not under contract: CPython runs the real code on
-# enumerated / seeded inputs.  Exact float comparisons (no tolerance): the property has none.
+# The t-digest contracts above are proved for exact (real) arithmetic; the Merkle contracts assume well-formed
+# trees (what _build_tree builds) and collision-free hashes.  Here CPython runs the real code on enumerated /
+# seeded inputs: IEEE floats in the interpolation, tree construction (build / update / remove), and the
+# end-to-end statement on maps.  Exact float comparisons (no tolerance): the property has none.
 import itertools as _it  # noqa: E402
 import random as _rnd  # noqa: E402
 
@@ -1828,6 +1961,12 @@ def _bounded_tdigest_run(seed, tier):
                 if a > b:
                     bad.append({"case": "tdigest-quantile-non-decreasing", **where, "q1": qa, "q2": qb, "v1": a, "v2": b})
                     break
+            if CDF_REPAIRED:        # (on the unrepaired tree cdf is not monotone: finding triage/c20_tdigest_cdf.py)
+                vs = sorted(set(true + [c.mean for c in td._centroids] + [lo - 1.0, hi + 1.0]))
+                cs = [td.cdf(v) for v in vs]
+                ev += len(vs)
+                if any(a > b for a, b in zip(cs, cs[1:])) or any(not (0.0 <= c <= 1.0) for c in cs):
+                    bad.append({"case": "tdigest-cdf-non-decreasing-within-0-1", **where})
             off = [(q, o) for q, o in zip(qs, out) if o < lo or o > hi]
             if off:
                 bad.append({"case": "tdigest-quantile-within-min-max", **where, "min": lo, "max": hi, "q": off[0][0], "v": off[0][1]})
